@@ -68,4 +68,13 @@ def slotTracked (s : Option Slot) : Bool :=
   | none => true
   | some ⟨_, c⟩ => c.isSome
 
+/-- a HISTORY of `save()` calls onto the one target (any graphs, any configurations); a call that raises leaves
+the entry as it was (`_discard()`; the argument checks touch nothing) -/
+def soRun (pre : Option Slot) : List (Val × SaveArgs) → Option Slot
+  | [] => pre
+  | (v, a) :: rest =>
+      match saveOnto pre v a with
+      | .ok post => soRun post rest
+      | .error _ => soRun pre rest
+
 end QuantemModel.Serialize
